@@ -29,6 +29,11 @@ FILES = {
     # two units with the same file name in different directories (told apart by unit_path only)
     "api/views.py": "def index(p):\n" + FLOW % (8, 8) + "    return p\n",
     "admin/views.py": "def index(p):\n" + FLOW % (9, 9) + "    return p\n",
+    # classes with methods of the same name, told apart only by their attributes (decorators) or not at all
+    "svc.py": "class Fetcher:\n    @staticmethod\n    def handle(p):\n" + (FLOW % (20, 20)).replace("    ", "        ") + "        return p\n\n"
+              "    def run(self, p):\n" + (FLOW % (21, 21)).replace("    ", "        ") + "        return p\n\n"
+              "class Parser:\n    @classmethod\n    def handle(cls, p):\n" + (FLOW % (22, 22)).replace("    ", "        ") + "        return p\n\n"
+              "    def run(self, p):\n" + (FLOW % (23, 23)).replace("    ", "        ") + "        return p\n",
     # four entries whose call chains converge on one call site two levels down; the source is in the entry, the sink in the deepest callee
     "conv.py": "def deep(v):\n    sink(v)\n    return v\n\ndef shared(v):\n    return deep(v)\n\n"
                + "".join("def e%d(p):\n    s%d = source()\n    return shared(s%d)\n\n" % (i, i, i) for i in (1, 2, 3, 4)),
@@ -49,6 +54,10 @@ POOL = [
     {"unit_name": "views.py", "unit_path": "api/", "method_list": ["index"]},
     {"method_list": ["e1", "e2", "e3", "e4"]},
     {"unit_name": "conv.py", "method_list": ["e2", "e4", "shared"]},
+    {"method_list": ["handle"], "attrs": ["staticmethod"]},
+    {"method_list": ["handle"], "attrs": ["classmethod"]},
+    {"method_list": ["run"]},
+    {"unit_name": "svc.py", "method_list": ["run", "handle"]},
 ]
 SETTINGS = {
     "source.yaml": "- lang: python\n  rules:\n    - operation: call_stmt\n      name: source\n      tag: [\"%target\"]\n",
@@ -57,7 +66,8 @@ SETTINGS = {
 }
 CALLS = {"a.py:main1": ["a.py:helper"], "conv.py:shared": ["conv.py:deep"]}
 CALLS.update({"conv.py:e%d" % i: ["conv.py:shared"] for i in (1, 2, 3, 4)})
-NO_FLOW = {"c.js:main1", "c.js:%unit_init", "api/views.py:%unit_init", "admin/views.py:%unit_init", "conv.py:%unit_init", "conv.py:deep", "conv.py:shared"}
+NO_FLOW = {"c.js:main1", "c.js:%unit_init", "api/views.py:%unit_init", "admin/views.py:%unit_init", "conv.py:%unit_init", "conv.py:deep", "conv.py:shared",
+           "svc.py:%unit_init"}
 
 
 def yaml_of(rules):
@@ -75,7 +85,7 @@ def yaml_of(rules):
 def subsets(tier, seed):
     n = len(POOL)
     alls = [list(s) for k in range(0, n + 1) for s in itertools.combinations(range(1, n + 1), k)]
-    core = [s for s in alls if len(s) <= 1] + [[1, 2], [3, 6], [4, 5], [2, 7], [11, 12], [1, 13], [13, 14], [1, 11, 13], list(range(1, n + 1))]
+    core = [s for s in alls if len(s) <= 1] + [[1, 2], [3, 6], [4, 5], [2, 7], [11, 12], [1, 13], [13, 14], [1, 11, 13], [15, 16], [15, 17], [16, 18], [17, 18], list(range(1, n + 1))]
     if tier == "thorough":
         rest = [s for s in alls if s not in core and len(s) <= 3]
         big = random.Random(0).sample([s for s in alls if len(s) > 3], 120)
@@ -88,6 +98,9 @@ def lang_of(fn):
     return "javascript" if fn.endswith(".js") else "python"
 
 
+METHOD_ATTRS = {}
+
+
 def project_facts(gir, modules):
     """units and methods of the project in canonical vocabulary (file:name)."""
     unit_file = {}
@@ -97,11 +110,23 @@ def project_facts(gir, modules):
             rel = p.split("/in/", 1)[1] if "/in/" in p else os.path.basename(p)
             unit_file[m["unit_id"]] = (rel, m.get("unit_path", ""))
     methods, id2key = [], {}
+    cls_of_block = {r.get("methods"): r.get("name") for r in gir if r.get("operation") == "class_decl" and r.get("methods")}
+    attrs = {}
     for r in gir:
         if r.get("operation") == "method_decl" and r.get("unit_id") in unit_file:
-            key = "%s:%s" % (unit_file[r["unit_id"]][0], r.get("name"))
+            cls = cls_of_block.get(r.get("parent_stmt_id"))
+            name = r.get("name")
+            if name == "%class_sinit":
+                continue
+            key = "%s:%s%s" % (unit_file[r["unit_id"]][0], (cls + ".") if cls else "", name)
             id2key[r["stmt_id"]] = key
             methods.append(key)
+            a = r.get("attrs")
+            try:
+                attrs[key] = [str(x) for x in json.loads(str(a).replace("'", '"'))] if a else []
+            except ValueError:
+                attrs[key] = []
+    METHOD_ATTRS.update(attrs)
     return unit_file, methods, id2key
 
 
@@ -130,12 +155,12 @@ def run(tier, seed):
             pool = []
             for rule in POOL:
                 pool.append({"lang": rule.get("lang", ""), "unit_name": rule.get("unit_name", ""), "unit_path": rule.get("unit_path", ""),
-                             "method_list": rule.get("method_list", []),
+                             "method_list": rule.get("method_list", []), "attrs": rule.get("attrs", []),
                              "name_hits": [u["id"] for u in units if rule.get("unit_name", "") in u["file"]],
                              "path_hits": [u["id"] for u in units if rule.get("unit_path", "") in u["path"]]})
             project = {"units": units, "pool": pool,
-                       "methods": [{"id": k, "unit": k.split(":")[0], "name": k.split(":")[1], "calls": CALLS.get(k, []),
-                                    "flow": k not in NO_FLOW} for k in sorted(set(methods))]}
+                       "methods": [{"id": k, "unit": k.split(":")[0], "name": k.split(":")[1].split(".")[-1], "calls": CALLS.get(k, []),
+                                    "attrs": METHOD_ATTRS.get(k, []), "flow": k not in NO_FLOW} for k in sorted(set(methods))]}
         ep_ids = []
         for e in (r["exports"].get("entry_points") or []):
             for val in e.values():
